@@ -471,6 +471,50 @@ class Repo:
                     out.append(dict(kind="mut", attr=r.attr, node=n, recv=r.value, method=n.func.attr))
                 elif isinstance(r, ast.Name):
                     out.append(dict(kind="mut", attr="$" + r.id, node=n, recv=None, method=n.func.attr))
+        # an attribute (or a local container) handed to a package function that mutates that parameter is mutated here
+        for n in self.own_nodes(func):
+            if not isinstance(n, ast.Call):
+                continue
+            for t in self.resolve_call(n, func):
+                if not isinstance(t, Func) or t is func:
+                    continue
+                mp = self.mutated_params(t)
+                if not mp:
+                    continue
+                names = t.params
+                if t.cls is not None and not t.is_static and isinstance(n.func, ast.Attribute):
+                    names = names[1:]
+                pairs = list(zip(names, n.args)) + [(k.arg, k.value) for k in n.keywords if k.arg]
+                for pname, a in pairs:
+                    if pname not in mp or isinstance(a, ast.Starred):
+                        continue
+                    r = a
+                    while isinstance(r, ast.Subscript):
+                        r = r.value
+                    r = resolve(r)
+                    if isinstance(r, ast.Attribute):
+                        out.append(dict(kind="mut", attr=r.attr, node=n, recv=r.value, method=f"{mp[pname]} in {t.qualname}"))
+                    elif isinstance(r, ast.Name):
+                        out.append(dict(kind="mut", attr="$" + r.id, node=n, recv=None, method=f"{mp[pname]} in {t.qualname}"))
+        return out
+
+    def mutated_params(self, func):
+        """{parameter name: mutating method} for the parameters a function mutates in place (directly or by handing them on); a
+        parameter that the function re-binds is not followed"""
+        memo = self.__dict__.setdefault("_mutated_params", {})
+        if func.qualname in memo:
+            return memo[func.qualname] or {}
+        memo[func.qualname] = None          # in progress: a cycle contributes nothing new
+        a = func.node.args
+        params = {x.arg for x in a.posonlyargs + a.args + a.kwonlyargs} - {"self", "cls"}
+        rebound = {n.id for n in self.own_nodes(func) if isinstance(n, ast.Name) and isinstance(n.ctx, (ast.Store, ast.Del))}
+        out = {}
+        for s in self.stores(func):
+            if s["kind"] in ("mut", "elem", "del_elem") and s["attr"].startswith("$"):
+                nm = s["attr"][1:]
+                if nm in params and nm not in rebound:
+                    out.setdefault(nm, s.get("method") or s["kind"])
+        memo[func.qualname] = out
         return out
 
     def writers_of(self, attr, kinds=("rebind", "elem", "mut", "del_elem", "del_attr")):
